@@ -294,6 +294,7 @@ func checkC16(cx *Ctx, r *Report) {
 		lb, _ := vf.CallArgSources(matchFnKey(w, "provider.GetAcsUrlAndBindingForResponse"), 1)
 		r.checkSources("R-VFG", "sso:requested-binding", w.InstrPos(sites[0]), lb, []string{"decoded:samlp.AuthnRequestType.ProtocolBinding"}, []string{"decoded:samlp.AuthnRequestType.ProtocolBinding"}, true)
 	}
+	cx.checkSelectionResultsOnly(r)
 	cx.checkDecodedMetadataUntouched(r)
 }
 
@@ -385,4 +386,44 @@ func unLen(v ssa.Value) ssa.Value {
 		}
 	}
 	return v
+}
+
+// checkSelectionResultsOnly: in the SSO handler both Response.AcsUrl and Response.ProtocolBinding are assigned only
+// from the two results of the selection function (or stay empty).
+func (cx *Ctx) checkSelectionResultsOnly(r *Report) {
+	// --- what the handler does with the result: both parts of the pair come from one call of the selection ------
+	w := cx.W
+	vf := cx.vflow(kSSO)
+	if vf == nil {
+		return
+	}
+	vf.stopAt = func(c *ssa.Call) bool { return matchFnKey(w, "provider.GetAcsUrlAndBindingForResponse")(c) }
+	for i, fld := range []string{"AcsUrl", "ProtocolBinding"} {
+		_, stores := vf.FieldStoreSources("provider.Response", fld)
+		n := 0
+		for _, st := range stores {
+			if !vf.scope[st.Parent()] {
+				continue
+			}
+			okAll := true
+			what := ""
+			vf.resolve(st.Val, func(d ssa.Value) {
+				if c, isC := d.(*ssa.Const); isC && (c.Value == nil || c.Value.ExactString() == `""`) {
+					return
+				}
+				ex, isEx := d.(*ssa.Extract)
+				if isEx && ex.Index == i {
+					if c, isC := ex.Tuple.(*ssa.Call); isC && vf.stopAt(c) {
+						return
+					}
+				}
+				okAll = false
+				what = cx.Fx.path(d)
+			}, map[ssa.Value]bool{}, 0)
+			n++
+			r.Check(okAll, "R-SELECT", fmt.Sprintf("sso:Response.%s#%d", fld, n), w.InstrPos(st), fmt.Sprintf("result #%d of the selection", i), fmt.Sprintf("the SSO handler sets Response.%s from %s, not from result #%d of the selection: URL and binding can come from different registered entries", fld, what, i))
+		}
+		r.Check(n > 0, "R-SELECT", "sso:Response."+fld, "", "assigned from the selection", "the SSO handler never assigns Response."+fld)
+	}
+	vf.stopAt = nil
 }
